@@ -13,9 +13,24 @@ open Kit.Dir
 fetch a file belongs to). -/
 def pemOf (kind : String) (n : Nat) : Bytes := (kind ++ toString n).toUTF8.data.toList
 
-/-- The map `fetchIdentityCertificate` hands to `dir.Write`. -/
+open Kit.Generated.C19 (Role) in
+def roleTok (f : FileSet) : Role → Nat
+  | .key => f.key
+  | .chain => f.chain
+  | .anchors => f.anchors
+
+open Kit.Generated.C19 (Role) in
+def roleName : Role → String
+  | .key => "key"
+  | .chain => "chain"
+  | .anchors => "anchors"
+
+/-- The map `fetchIdentityCertificate` hands to `dir.Write`: file names and what each holds are the
+ones extracted from the source on this run (`Kit.Generated.C19.fileSet`). -/
 def filesOf (f : FileSet) : Files :=
-  [(.str "key.pem", pemOf "key" f.key), (.str "cert.pem", pemOf "chain" f.chain), (.str "ca.pem", pemOf "anchors" f.anchors)]
+  Kit.Generated.C19.fileSet.map fun nr => (.str nr.1, pemOf (roleName nr.2) (roleTok f nr.2))
+
+example : (filesOf ⟨4, 4, 3⟩).map (·.1) = [.str "key.pem", .str "cert.pem", .str "ca.pem"] := by decide
 
 /-- The history of `dir.Write` calls of a renewal run (oldest first), as events of C18's model. -/
 def writesOf (s : RN) : List Kit.Dir.Ev := s.pub.reverse.map fun f => Kit.Dir.Ev.write (filesOf f)
